@@ -110,7 +110,7 @@ impl Check for C03 {
         "fault_enumeration"
     }
     fn rule(&self) -> String {
-        "every publishing path {Cache::set, put, set_temp_file, put_temp_file, ensure miss, get_or_update miss / Replace on a primary or secondary hit / Promote from a plain or sharded read-only level; raw plain/sharded set/put as the auto_sync-off baseline} x {plain, sharded} write side x pre-states of C02 (incl. maintenance in the same call) x value size (multi-chunk) x auto_sync on/off, sampled by seed. Oracle over the complete call trace, per inode: at each publication (rename/link onto a key name in the write cache) the inode's dirty bit is clear when auto_sync is on (a successful fsync/fdatasync follows its last write/truncate), its mode has no write bit, and afterwards it is never written, truncated or re-moded. Then every fsync of the fault-free trace fails in turn with EIO/ENOSPC/EDQUOT: the call must fail (or panic with the documented message) and that inode must never be published in the run; and every rename/link onto a key name fails once in turn with EXDEV/ENOENT/EIO/ENOSPC/EACCES, whatever the retry or fallback path then publishes being held to the same per-inode oracle; and every utimens/chmod/fchmod/lstat/stat that precedes a publication fails once with EIO, under the same oracle (a retry path may not publish what was never made read-only). One run in 40 is instead a concurrent run (2-3 participants on a stacked cache with auto_sync, capacities 0-2 so that every write evicts, an adversary deleting published files) judged by the same publication oracle. evaluations = scenarios; non-trivial = at least one publication with auto_sync on; distinct = scenario signature".to_string()
+        "every publishing path {Cache::set, put, set_temp_file, put_temp_file, ensure miss, get_or_update miss / Replace on a primary or secondary hit / Promote from a plain or sharded read-only level; raw plain/sharded set/put as the auto_sync-off baseline} x {plain, sharded} write side x pre-states of C02 (incl. maintenance in the same call) x value size (multi-chunk) x auto_sync on/off, sampled by seed. Oracle over the complete call trace, per inode: at each publication (rename/link onto a key name in the write cache) the inode's dirty bit is clear when auto_sync is on (a successful fsync/fdatasync follows its last write/truncate), its mode has no write bit, and afterwards it is never written, truncated or re-moded. Then every fsync of the fault-free trace fails in turn with EIO/ENOSPC/EDQUOT: the call must fail (or panic with the documented message) and that inode must never be published in the run; and every rename/link onto a key name fails once in turn with EXDEV/ENOENT/EIO/ENOSPC/EACCES, whatever the retry or fallback path then publishes being held to the same per-inode oracle; and every utimens/chmod/fchmod/lstat/stat/open that precedes a publication fails once with EIO, under the same oracle (a retry path may not publish what was never made read-only). One run in 40 is instead a concurrent run (2-3 participants on a stacked cache with auto_sync, capacities 0-2 so that every write evicts, an adversary deleting published files) judged by the same publication oracle. evaluations = scenarios; non-trivial = at least one publication with auto_sync on; distinct = scenario signature".to_string()
     }
     fn runs(&self, tier: Tier) -> u64 {
         match tier {
@@ -207,12 +207,12 @@ impl Check for C03 {
                 }
             }
         }
-        // a failing preparation step: each utimens/chmod/fchmod/lstat that
+        // a failing preparation step: each utimens/chmod/fchmod/lstat/open that
         // precedes a publication fails once (EIO).  The call usually fails; if
         // its retry path publishes anyway, the file must still have been made
         // read-only (and flushed) first.
         let last_pub = pubs_calls.iter().copied().max();
-        let preps: Vec<u64> = ex0.trace.iter().filter(|r| r.proc == 0 && r.lib && matches!(r.kind, K::Utimens | K::Chmod | K::Fchmod | K::Lstat | K::Stat) && last_pub.map(|l| r.call_index < l).unwrap_or(false)).map(|r| r.call_index).collect();
+        let preps: Vec<u64> = ex0.trace.iter().filter(|r| r.proc == 0 && r.lib && (matches!(r.kind, K::Utimens | K::Chmod | K::Fchmod | K::Lstat | K::Stat) || (r.kind == K::Open && r.arg & kismet_vfs::kernel::O_CREATE == 0)) && last_pub.map(|l| r.call_index < l).unwrap_or(false)).map(|r| r.call_index).collect();
         if out.violation.is_none() {
             for idx in preps.iter() {
                 let target = *idx;
